@@ -9,9 +9,9 @@ ID = "C17"
 LEVEL = "fault_enumeration"
 LEVEL_TEXT = ("Complete enumeration of base program (9 programs whose lines contain every construct that touches line bookkeeping: ; and "
               "/* */ comments, multi-line comments, blank lines, indentation, blocks, named scopes, macro definitions and applications, "
-              "loops, conditionals, data lists, quoted strings, bare mnemonics with trailing comments, CRLF-free long lines) x every "
-              "line boundary where a statement can stand x 6 faulty statements (undefined symbol in an operand / in .db, bad size "
-              "suffix, bad index register, unterminated string before a newline / at end of input) x 2 indentations x 3 file "
+              "loops, conditionals, data lists, quoted strings, bare mnemonics with trailing comments, long files, form feed / NEL / U+2028 inside comments and strings) x every "
+              "line boundary where a statement can stand x 7 faulty statements (undefined symbol in an operand / in .db, bad size "
+              "suffix, bad index register, unterminated string before a newline / at end of input / ending in a backslash) x 2 indentations x 3 file "
               "situations (main file; inside an included file; in the main file after an include). The reported text must name the "
               "right file and zero-based line, quote that line, and for lexical errors give the column of the offending character. "
               "Four unit tests check an error on line 0 of a one-line program.")
@@ -108,6 +108,8 @@ BASE = {
 >    rts
 >""",
     "long": ">*=0x018000\n" + "".join(f">    .db {i}, {i + 1}, {i + 2} ; line {i}\n" for i in range(0, 40, 3)) + ">",
+    "odd-characters": ">*=0x018000\n>; comment with a form feed \x0c and a vertical tab \x0b inside\n>first:\n>    .ascii 'ff\x0cin string' ; and NEL \x85 here\n"
+                      ">/* block comment with U+2028 \u2028 and U+2029 \u2029 inside */\n>    .db 1 ; caf\u00e9 \u00fc\n>second:\n>    .dw second\n>",
     "moves": """>*=0x018000
 >first:
 >    .db 1
@@ -126,13 +128,14 @@ FAULTS = {
     "bad-index-register": ("lda 0x12,z", 9),
     "unterminated-string": (".ascii 'abc", 7),
     "unterminated-string-at-eof": (".ascii 'abc", 7),
+    "unterminated-string-ending-in-backslash": (".ascii 'C:\\data\\", 7),
 }
 SITUATIONS = ["main", "included", "main-after-include"]
 INC_VALID = "; included helper file\n\nhelper_value = 0x21\n/* with\n a comment */\n; end of helper\n"
 
 
 def bound(tier):
-    return "9 base programs x every insertable line boundary x 6 faults x 2 indentations x 3 file situations"
+    return "10 base programs x every insertable line boundary x 7 faults x 2 indentations x 3 file situations"
 
 
 def parse_base(text):
